@@ -575,6 +575,21 @@ class HyperscanTokenizer(Tokenizer):
                     regex = re.sub(
                         rf'([{"".join(set(long_chars))}])\?', r"(?:\1)?", regex
                     )
+
+                    # Likewise a character class containing such a character,
+                    # like "[§|s]", would match just one of its bytes.
+                    # Convert "[§|s]" to "(?:§|[|s])":
+                    def convert_class(m):
+                        long_in_class = [c for c in m[1] if c in long_chars]
+                        if not long_in_class or m[1].startswith("^"):
+                            return m[0]
+                        rest = "".join(c for c in m[1] if c not in long_chars)
+                        options = long_in_class + ([f"[{rest}]"] if rest else [])
+                        return f"(?:{'|'.join(options)})"
+
+                    regex = re.sub(
+                        r"(?<!\\)\[((?:\\.|[^\]\\])*)\]", convert_class, regex
+                    )
                 # encode as bytes:
                 return regex.encode("utf8")
 
